@@ -16,7 +16,7 @@ VARIABLES tr, l, called, pr, closing, seen, repSeen, dSeen
 tvars == <<tr, l, called, pr, closing, seen, repSeen, dSeen>>
 allvars == <<vars, tvars>>
 
-TInit == Init /\ tr = 1 /\ l = 1 /\ called = [w \in Writers |-> FALSE] /\ pr = 0 /\ closing = FALSE /\ seen = [w \in Writers |-> 0]
+TInit == Init /\ tr = 1 /\ l = 1 /\ called = [w \in Writers |-> FALSE] /\ pr = 0 /\ closing = "no" /\ seen = [w \in Writers |-> 0]
          /\ repSeen = 0 /\ dSeen = 0
 
 Cur == Traces[tr].events
@@ -33,8 +33,8 @@ EWriteEnd == /\ IsEv("WriteEnd") /\ called[Ev.w]
              /\ called' = [called EXCEPT ![Ev.w] = FALSE] /\ UNCHANGED <<vars, pr, closing, repSeen, dSeen>>
 EPeerRecv == /\ IsEv("PeerRecv") /\ pr < Len(toPeer) /\ toPeer[pr + 1] = <<Ev.w, Ev.n>>
              /\ pr' = pr + 1 /\ UNCHANGED <<vars, called, closing, seen, repSeen, dSeen>>
-ECloseStart == IsEv("CloseStart") /\ ~closing /\ closing' = TRUE /\ UNCHANGED <<vars, called, pr, seen, repSeen, dSeen>>
-ECloseEnd == IsEv("CloseEnd") /\ closerDone /\ UNCHANGED <<vars, called, pr, closing, seen, repSeen, dSeen>>
+ECloseStart == IsEv("CloseStart") /\ closing = "no" /\ closing' = (IF Ev.n = 1 THEN "reason" ELSE "plain") /\ UNCHANGED <<vars, called, pr, seen, repSeen, dSeen>>
+ECloseEnd == IsEv("CloseEnd") /\ closerDone /\ cpc \in {"idle", "done"} /\ UNCHANGED <<vars, called, pr, closing, seen, repSeen, dSeen>>
 \* callbacks into the SHIP layer are observations of earlier silent steps as well: the real code marks the connection
 \* closed, and only then calls ReportConnectionError
 EReportError == /\ IsEv("ReportError") /\ repSeen < reports /\ repSeen' = repSeen + 1
@@ -49,13 +49,15 @@ Silent == /\ UNCHANGED tvars
           /\ \/ \E w \in Writers : (called[w] /\ Len(wres[w]) = seen[w] /\ WLock(w)) \/ WCheck(w) \/ WSend(w)
              \/ PSelectClose \/ PSelectMsg \/ PWrite \/ PWrite2 \/ PExit
              \/ RTop \/ RRead \/ RGot \/ RDeliver
-             \/ (closing /\ LocalClose)
+             \/ (closing = "plain" /\ LocalClose)
+             \/ (closing = "reason" /\ (CReasonFrame \/ CReasonMark))
+             \/ CReasonClose \/ CReasonSend \/ PeerReacts
              \/ ShipReacts
 
 \* next history: everything consumed, no call left open
 TraceReset == /\ tr <= Len(Traces) /\ l = Len(Cur) + 1 /\ \A w \in Writers : ~called[w]
               /\ repSeen = reports /\ repSeen' = 0 /\ dSeen' = 0
-              /\ tr' = tr + 1 /\ l' = 1 /\ called' = [w \in Writers |-> FALSE] /\ pr' = 0 /\ closing' = FALSE
+              /\ tr' = tr + 1 /\ l' = 1 /\ called' = [w \in Writers |-> FALSE] /\ pr' = 0 /\ closing' = "no"
               /\ seen' = [w \in Writers |-> 0]
               /\ closed' = FALSE /\ closedErr' = FALSE /\ closeChan' = FALSE /\ wchan' = <<>> /\ wchanClosed' = FALSE
               /\ once' = FALSE /\ connClosed' = FALSE /\ mux' = 0
@@ -63,7 +65,7 @@ TraceReset == /\ tr <= Len(Traces) /\ l = Len(Cur) + 1 /\ \A w \in Writers : ~ca
               /\ ppc' = "select" /\ pmsg' = <<>> /\ rpc' = "top" /\ rframe' = "none"
               /\ toPeer' = <<>> /\ fromPeer' = InitFrames /\ eof' = FALSE /\ failNext' = FALSE /\ blocked' = FALSE
               /\ reports' = 0 /\ panicked' = {} /\ delivered' = <<>> /\ closerDone' = FALSE /\ faults' = 0
-              /\ accepted' = <<>> /\ lateDeliver' = 0 /\ nblock' = 0
+              /\ accepted' = <<>> /\ lateDeliver' = 0 /\ nblock' = 0 /\ cpc' = "idle" /\ peerClosing' = FALSE
 
 TNext == EWriteStart \/ EWriteEnd \/ EPeerRecv \/ ECloseStart \/ ECloseEnd \/ EReportError \/ EDeliverIn \/ EPeerEof \/ Silent \/ TraceReset
 TSpec == TInit /\ [][TNext]_allvars
